@@ -16,6 +16,9 @@ CLAIMED = {
  "C12": ("exploration", "S", "deterministic simulation: task identity, start time and order of thread-local systems recorded in the event history under seeded schedules", "5.C12"),
  "C13": ("exploration", "S", "deterministic simulation of the lifecycle (setup / remove / overwrite / setup again / dispatches incl. panicking ones / dispose) against a reference world and per-system lifecycle counters", "5.C13"),
  "C15": ("exploration", "S", "deterministic simulation: the caller is a simulated task issuing dispatch/running/wait/world/... at scheduler-chosen instants; blocking accessors run the real mpsc::recv through the detach protocol; oracle evaluated at the instant each accessor returns", "5.C15"),
+ "C16": ("exploration", "S", "deterministic simulation: Par/Seq trees assembled at run time from the real nodes (boxing adapter), dispatched under hold/max-overlap/random schedules from outside and inside pools of 1-16 workers; seq-order, exactly-once, union and debug-check oracles", "5.C16"),
+ "C19": ("exploration", "S", "simulator-owned environment: the same registration sequence rebuilt under other hash-key streams (ahash random-source seam), renamings, injective resource relabellings across types and dynamic ids, permuted declared lists; executed layouts compared", "5.C19"),
+ "C20": ("exploration", "S", "generated registration sequences formatted ({:?}, {:#?}, also midway through registration) under catch_unwind; the text is parsed and compared position by position with the executed layout (shape hook + identification run)", "5.C20"),
  "C14": ("fault_enumeration", "S", "fault injection: every system position of every generated plan panics once (three points), sibling phase arranged by the scheduler; containment oracles on the history and on the following dispatch", "5.C14"),
 }
 NA = {
